@@ -15,6 +15,24 @@ TYPES = {
             {1: "    impl Uno {\n        pub fn make_uno() -> Box<Uno> { Box::new(Uno(1)) }\n        pub fn val(&self) -> u8 { self.0 }\n    }\n"}),
     "Duo": ("    pub struct Duo {\n        pub a: i32,\n        pub b: bool,\n    }\n",
             {1: "    impl Duo {\n        pub fn first(self) -> i32 { self.a }\n    }\n"}),
+    # "rich" unrelated types: they exercise the generator state that is shared between types (callback wrappers,
+    # slice/option/result helpers, imports); Work sorts after every base opaque, Ada before every base type
+    "Work": ("    #[diplomat::opaque]\n    pub struct Work(Vec<u8>);\n",
+             {1: "    impl Work {\n        #[diplomat::demo(default_constructor)]\n        pub fn mk(v: u8) -> Box<Work> { Box::new(Work(vec![v])) }\n"
+                 "        #[diplomat::attr(not(supports = callbacks), disable)]\n"
+                 "        pub fn apply(f: impl Fn(i32) -> i32, x: i32) -> i32 { f(x) }\n"
+                 "        pub fn name(&self, w: &mut DiplomatWrite) {}\n"
+                 "        pub fn try_make(s: &str) -> Result<Box<Work>, ()> { Ok(Box::new(Work(s.as_bytes().to_vec()))) }\n"
+                 "        pub fn first(&self) -> Option<u8> { self.0.first().copied() }\n"
+                 "        pub fn bytes<'a>(&'a self) -> &'a [u8] { &self.0 }\n    }\n"}),
+    "Ada": ("    pub struct Ada {\n        pub a: u8,\n        pub b: f64,\n    }\n",
+            {1: "    impl Ada {\n        #[diplomat::attr(not(supports = callbacks), disable)]\n"
+                "        pub fn each(self, f: impl Fn(u8)) { f(self.a) }\n"
+                "        pub fn sum(self, xs: &[f64]) -> f64 { xs.iter().sum::<f64>() + self.b }\n"
+                "        pub fn check(self) -> Result<u8, ()> { Ok(self.a) }\n    }\n"}),
+    "Zen": ("    pub enum Zen {\n        P,\n        Q = 9,\n    }\n",
+            {1: "    impl Zen {\n        pub fn parse(s: &str) -> Option<Zen> { if s.is_empty() { None } else { Some(Zen::P) } }\n"
+                "        pub fn label(self, w: &mut DiplomatWrite) {}\n    }\n"}),
 }
 NONBRIDGE = {
     "free_fn": "pub fn free_fn(x: u8) -> u8 { x }\n",
@@ -125,7 +143,17 @@ def run(rep, tier):
     h = lib.tlc("determ", "MCB_Determinism", "beh.cfg", workers=1, coverage=False, simulate=nb * 3, depth=7)
     lib.tlc_expect_ok(h, "history emission")
     rep.add_tlc("Determinism/beh", h)
+    # every single edit of the base program (exhaustive, one step), then the simulated longer histories
+    h1 = lib.tlc("determ", "MCB_Determinism", "beh1.cfg", workers=1, coverage=False)
+    lib.tlc_expect_ok(h1, "one-step history emission")
+    rep.add_tlc("Determinism/beh1", h1)
     seen, behs = set(), []
+    for b in h1.printed.get("BEH", []):
+        kx = json.dumps(b, sort_keys=True)
+        if kx not in seen:
+            seen.add(kx)
+            behs.append(b)
+    nb += len(behs)
     for b in h.printed.get("BEH", []):
         kx = json.dumps(b, sort_keys=True)
         if kx not in seen:
